@@ -14,9 +14,10 @@
 (* One action per mutex-protected block (= stretch between two schedule    *)
 (* points of the conformance harness: pthread_mutex_lock, _unlock and      *)
 (* pthread_cond_(clock)wait seams).                                        *)
-(* Threads: 0 = the context's timer thread (run()), 1 = client A starting  *)
-(* operations in arrival order (schedule_at / schedule_after), 2 = remote  *)
-(* thread B issuing one request_stop() on one operation's stop source.     *)
+(* Threads: 0 = the context's timer thread (run()), 1 and 3 = clients      *)
+(* starting their operations (scn.owner) in index order (schedule_at /     *)
+(* schedule_after; their start() calls may overlap), 2 = remote thread B   *)
+(* issuing one request_stop() on one operation's stop source.              *)
 (* `now` is the abstract steady_clock (ticks); Tick is free (FreeTick) or  *)
 (* happens only when no thread can move (the harness's clock).             *)
 (***************************************************************************)
@@ -35,7 +36,7 @@ VARIABLES scn, now, fticks,
           cbReg,                         \* [op -> BOOLEAN] cancelCallback_ constructed and registered
           cbRun,                         \* op whose cancel callback is executing on thread B (0 = none)
           stopFlag,                      \* [op -> BOOLEAN] stop requested on the op's stop source
-          apc, ai,                       \* client A
+          apc, ai,                       \* arming clients: [Armers -> pc], [Armers -> current op, 0 = none]
           bpc,                           \* remote stopper B
           tpc, tcur, ttimed, tdl, tsig,  \* timer thread: pc, dequeued task, wait_until?, deadline, notified
           \* ---- history variables (properties only)
@@ -49,13 +50,18 @@ View == vars
 N == Len(scn.due)
 Ops == 1..N
 S == scn.stop
+Armers == {1, 3}
+\* next operation (index >= i) that client a starts; 0 = none.  scn.owner[i] \in Armers
+RECURSIVE NextOwned(_, _)
+NextOwned(a, i) == IF i > N THEN 0 ELSE IF scn.owner[i] = a THEN i ELSE NextOwned(a, i + 1)
 
 Init ==
   /\ scn \in Scenarios
   /\ now = 0 /\ fticks = 0 /\ head = 0
   /\ next = [o \in OpsAll |-> 0] /\ pnp = [o \in OpsAll |-> Null] /\ due = [o \in OpsAll |-> 0]
   /\ cbReg = [o \in OpsAll |-> FALSE] /\ cbRun = 0 /\ stopFlag = [o \in OpsAll |-> FALSE]
-  /\ apc = "sleep" /\ ai = 1
+  /\ ai = [a \in Armers |-> NextOwned(a, 1)]
+  /\ apc = [a \in Armers |-> IF NextOwned(a, 1) = 0 THEN "done" ELSE "sleep"]
   /\ bpc = IF scn.stop = 0 THEN "done" ELSE "sleep"
   /\ tpc = "wait" /\ tcur = 0 /\ ttimed = FALSE /\ tdl = 0 /\ tsig = FALSE
   /\ origDue = [o \in OpsAll |-> 0]
@@ -93,38 +99,40 @@ TheChain == Chain(head, 5)
 InChain(o) == \E k \in 1..Len(TheChain) : TheChain[k] = o
 
 \* ------------------------------------------------------------------ enabledness / quiescence
-AEn == (apc \notin {"sleep", "done"}) \/ (apc = "sleep" /\ now >= scn.at[ai])
+AEnOf(a) == (apc[a] \notin {"sleep", "done"}) \/ (apc[a] = "sleep" /\ now >= scn.at[ai[a]])
+AEn == \E a \in Armers : AEnOf(a)
 BEn == (bpc \notin {"sleep", "done"}) \/ (bpc = "sleep" /\ now >= scn.stopAt)
 TWake == tpc = "wait" /\ (tsig \/ (ttimed /\ now >= tdl))
 TEn == tpc = "relock" \/ (tpc = "exec" /\ cbRun # tcur) \/ TWake
 Quiescent == ~AEn /\ ~BEn /\ ~TEn
-AllDone == apc = "done" /\ bpc = "done" /\ tpc = "wait" /\ ~TWake /\ \A x \in Ops : fired[x] # "none"
+AllDone == (\A a \in Armers : apc[a] = "done") /\ bpc = "done" /\ tpc = "wait" /\ ~TWake /\ \A x \in Ops : fired[x] # "none"
 
 hist == <<origDue, armB, armE, stopB, stopE, fired, fireNow, fireCount, fireSeq, freed, mustPrec, orderOk>>
 listv == <<head, next, pnp>>
 tv == <<tpc, tcur, ttimed, tdl>>
 
-\* ------------------------------------------------------------------ client A: start() of operation ai
+\* ------------------------------------------------------------------ arming clients (threads 1 and 3): start() of their operations
 \* at_op::start(): cancelCallback_.construct(token, cancel_callback{this}); context_->enqueue(this)
 \* after_op::start(): dueTime_ = now() + duration_ first.
-AConstruct ==
-  /\ apc = "sleep" /\ now >= scn.at[ai]
-  /\ LET x == ai
+AConstruct(a) ==
+  /\ apc[a] = "sleep" /\ ai[a] # 0 /\ now >= scn.at[ai[a]]
+  /\ LET x == ai[a]
          d == IF scn.kind[x] = "after" THEN now + scn.due[x] ELSE scn.due[x] IN
      /\ due' = [due EXCEPT ![x] = d] /\ origDue' = [origDue EXCEPT ![x] = d]
      /\ armB' = [armB EXCEPT ![x] = TRUE]
      /\ mustPrec' = [mustPrec EXCEPT ![x] = {y \in Ops : armE[y] /\ origDue[y] <= d}]
      /\ IF stopFlag[x]
-        THEN /\ apc' = "icb" /\ UNCHANGED cbReg            \* stop already requested: callback runs inline in construct
-        ELSE /\ apc' = "enq" /\ cbReg' = [cbReg EXCEPT ![x] = TRUE]
-  /\ lastT' = 1 /\ lastSite' = "timer.sleep"
+        THEN /\ apc' = [apc EXCEPT ![a] = "icb"] /\ UNCHANGED cbReg   \* stop already requested: callback runs inline in construct
+        ELSE /\ apc' = [apc EXCEPT ![a] = "enq"] /\ cbReg' = [cbReg EXCEPT ![x] = TRUE]
+  /\ lastT' = a /\ lastSite' = "timer.sleep"
   /\ UNCHANGED <<scn, now, fticks, listv, cbRun, stopFlag, ai, bpc, tv, tsig,
                  armE, stopB, stopE, fired, fireNow, fireCount, fireSeq, freed, orderOk, bad>>
 
-\* the body of cancel_callback::operator() under the mutex; returns through `requeue` whether a requeue follows
-CbBody(x, requeuePc, endPc, pcVarIsA) ==
+\* the body of cancel_callback::operator() under the mutex, run by thread `who` (1, 3: inline in construct; 2: request_stop)
+SetPc(who, pc) == IF who = 2 THEN bpc' = pc /\ UNCHANGED apc ELSE apc' = [apc EXCEPT ![who] = pc] /\ UNCHANGED bpc
+CbBody(x, requeuePc, endPc, who) ==
   /\ bad' = (bad \/ freed[x])
-  /\ IF now < due[x]
+  /\ IF now < due[x] /\ Mut # "nocancelrewrite"
      THEN /\ due' = [due EXCEPT ![x] = now]
           /\ IF pnp[x] # Null
              THEN \* still queued: remove; requeued afterwards outside the lock
@@ -132,36 +140,38 @@ CbBody(x, requeuePc, endPc, pcVarIsA) ==
                   /\ next' = IF pnp[x] = 0 THEN next ELSE [next EXCEPT ![pnp[x]] = next[x]]
                   /\ pnp' = [p \in OpsAll |-> IF p = x THEN Null
                                                ELSE IF next[x] # 0 /\ p = next[x] THEN pnp[x] ELSE pnp[p]]
-                  /\ IF pcVarIsA THEN apc' = requeuePc /\ UNCHANGED bpc ELSE bpc' = requeuePc /\ UNCHANGED apc
+                  /\ SetPc(who, requeuePc)
              ELSE /\ UNCHANGED listv
-                  /\ IF pcVarIsA THEN apc' = endPc /\ UNCHANGED bpc ELSE bpc' = endPc /\ UNCHANGED apc
+                  /\ SetPc(who, endPc)
      ELSE /\ UNCHANGED <<due, listv>>
-          /\ IF pcVarIsA THEN apc' = endPc /\ UNCHANGED bpc ELSE bpc' = endPc /\ UNCHANGED apc
+          /\ SetPc(who, endPc)
 
-AIcb ==
-  /\ apc = "icb"
-  /\ CbBody(ai, "icbEnd", "icbEnd", TRUE)      \* prevNextPtr_ is nullptr before the first enqueue: never requeues
-  /\ lastT' = 1 /\ lastSite' = "timer.lock"
+AIcb(a) ==
+  /\ apc[a] = "icb"
+  /\ CbBody(ai[a], "icbEnd", "icbEnd", a)      \* prevNextPtr_ is nullptr before the first enqueue: never requeues
+  /\ lastT' = a /\ lastSite' = "timer.lock"
   /\ UNCHANGED <<scn, now, fticks, cbReg, cbRun, stopFlag, ai, tv, tsig, hist>>
-AIcbEnd ==
-  /\ apc = "icbEnd" /\ apc' = "enq"
-  /\ lastT' = 1 /\ lastSite' = "timer.unlock"
+AIcbEnd(a) ==
+  /\ apc[a] = "icbEnd" /\ apc' = [apc EXCEPT ![a] = "enq"]
+  /\ lastT' = a /\ lastSite' = "timer.unlock"
   /\ UNCHANGED <<scn, now, fticks, listv, due, cbReg, cbRun, stopFlag, ai, bpc, tv, tsig, hist, bad>>
-AEnq ==
-  /\ apc = "enq" /\ DoEnq(ai) /\ apc' = "armEnd"
-  /\ lastT' = 1 /\ lastSite' = "timer.lock"
+AEnq(a) ==
+  /\ apc[a] = "enq" /\ DoEnq(ai[a]) /\ apc' = [apc EXCEPT ![a] = "armEnd"]
+  /\ lastT' = a /\ lastSite' = "timer.lock"
   /\ UNCHANGED <<scn, now, fticks, due, cbReg, cbRun, stopFlag, ai, bpc, tv, hist>>
-AArmEnd ==
-  /\ apc = "armEnd"
-  /\ armE' = [armE EXCEPT ![ai] = TRUE]
-  \* ordering obligations created by the end of this submission (see TimerMon): operations already submitted
-  \* and not yet due must not value-complete before this one if this one is due strictly earlier
-  /\ mustPrec' = [x \in OpsAll |->
-        IF x \in Ops /\ x # ai /\ armB[x] /\ fired[x] = "none" /\ now < origDue[x] /\ origDue[ai] < origDue[x]
-        THEN mustPrec[x] \cup {ai} ELSE mustPrec[x]]
-  /\ ai' = ai + 1
-  /\ apc' = IF ai + 1 > N THEN "done" ELSE "sleep"
-  /\ lastT' = 1 /\ lastSite' = "timer.unlock"
+AArmEnd(a) ==
+  /\ apc[a] = "armEnd"
+  /\ LET me == ai[a] IN
+     /\ armE' = [armE EXCEPT ![me] = TRUE]
+     \* ordering obligations created by the end of this submission (see TimerMon): operations already submitted
+     \* (possibly still inside their own start() on the other client) and not yet due must not value-complete
+     \* before this one if this one is due strictly earlier
+     /\ mustPrec' = [x \in OpsAll |->
+           IF x \in Ops /\ x # me /\ armB[x] /\ fired[x] = "none" /\ now < origDue[x] /\ origDue[me] < origDue[x]
+           THEN mustPrec[x] \cup {me} ELSE mustPrec[x]]
+     /\ ai' = [ai EXCEPT ![a] = NextOwned(a, me + 1)]
+     /\ apc' = [apc EXCEPT ![a] = IF NextOwned(a, me + 1) = 0 THEN "done" ELSE "sleep"]
+  /\ lastT' = a /\ lastSite' = "timer.unlock"
   /\ UNCHANGED <<scn, now, fticks, listv, due, cbReg, cbRun, stopFlag, bpc, tv, tsig,
                  origDue, armB, stopB, stopE, fired, fireNow, fireCount, fireSeq, freed, orderOk, bad>>
 
@@ -177,7 +187,7 @@ BReq ==
                  origDue, armB, armE, fired, fireNow, fireCount, fireSeq, freed, mustPrec, orderOk, bad>>
 BCb ==
   /\ bpc = "cb"
-  /\ CbBody(S, "cbU", "end", FALSE)
+  /\ CbBody(S, "cbU", "end", 2)
   /\ lastT' = 2 /\ lastSite' = "timer.lock"
   /\ UNCHANGED <<scn, now, fticks, cbReg, cbRun, stopFlag, ai, tv, tsig, hist>>
 BCbU ==
@@ -240,7 +250,7 @@ Tick ==
   /\ lastT' = -1 /\ lastSite' = "tick"
   /\ UNCHANGED <<scn, listv, due, cbReg, cbRun, stopFlag, apc, ai, bpc, tv, tsig, hist, bad>>
 
-Next == AConstruct \/ AIcb \/ AIcbEnd \/ AEnq \/ AArmEnd \/ BReq \/ BCb \/ BCbU \/ BRequeue \/ BEnd
+Next == (\E a \in Armers : AConstruct(a) \/ AIcb(a) \/ AIcbEnd(a) \/ AEnq(a) \/ AArmEnd(a)) \/ BReq \/ BCb \/ BCbU \/ BRequeue \/ BEnd
         \/ TWakeTop \/ TTop \/ TExec \/ Tick
 Spec == Init /\ [][Next]_<<vars, lastT, lastSite>>
 
